@@ -11,13 +11,18 @@ Problems(ev) ==
     \cup (IF ~ev.r1 /\ ~(ev.flatNull1 /\ ev.flatIssues1 > 0) THEN {"flattenModel on an unresolvable model does not return null with an issue"} ELSE {})
     \cup (IF ev.rootUnchanged THEN {} ELSE {"resolveImports changed the content of the model"})
     \cup (IF ev.r2 /\ ~ev.unresolved2 /\ ~ev.flatNull2 THEN {} ELSE {"after the fault is repaired a fresh resolution does not succeed"})
+    \* a retry with the same importer on the same model: whatever the answer, "true" means resolved, "false" comes with an issue
+    \* (a cycle of ordinary units still held by the library: flattening is refused, see VerdictClaimed)
+    \cup (IF ev.r3 /\ (ev.unresolved3 \/ (VerdictClaimed(ev.fault) /\ ev.flatNull3)) THEN {"a repeated resolveImports returned true but the model has unresolved imports / is not flattened"} ELSE {})
+    \cup (IF ~ev.r3 /\ ~(\E i \in DOMAIN ev.issues3 : ImportingItem(ev.issues3[i])) THEN {"a repeated resolveImports returned false without an issue attached to an importing item"} ELSE {})
+    \cup (IF LogCoherent(ev.log3) THEN {} ELSE {"incoherent issue list"})
     \cup (IF LogCoherent(ev.log1) /\ LogCoherent(ev.log1f) /\ LogCoherent(ev.log2) THEN {} ELSE {"incoherent issue list"})
 Next == /\ l <= Len(TraceLog) /\ l' = l + 1
         /\ LET ev == TraceLog[l] IN
            IF ev.e = "Reset" THEN TRUE
            ELSE IF ev.e # "resolve" THEN Verdict("bad", l, ev.sc, <<ev.e>>)
            ELSE IF Problems(ev) = {} THEN TRUE
-           ELSE Verdict("bad", l, ev.sc, <<Problems(ev), ev.world, ev.fault, ev.strict>>)
+           ELSE Verdict("bad", l, ev.sc, <<Problems(ev), ev.world, ev.fault, ev.strict, ev.grouped>>)
 Spec == Init /\ [][Next]_l
 Accepted == LET d == TLCGet("stats").diameter IN PrintT(<<"DEPTH", d>>) /\ d - 1 = Len(TraceLog)
 =============================================================================
